@@ -457,6 +457,17 @@ class Frame(PyStub):
                 a[r, j] = self.cols[c][r]
         return a
 
+    def to_numpy(self, dtype=None, copy=False, **kw):
+        return self.values
+
+    @property
+    def columns(self):
+        return list(self.cols)
+
+    @property
+    def shape(self):
+        return (self.n, len(self.cols))
+
 
 def text_to_lines(text, render):
     """written text (Text value of the writer's evaluation) -> list of Line: literal words stay strings, formatted values become their symbolic values"""
